@@ -16,9 +16,9 @@ import xactlib as X
 META = dict(
     id='C06',
     level='proof',
-    technique='Coq proof about a model of print_xact\'s per-posting decisions, of the reader on such lines and of posts_as_equity (print shows what was written; re-read of an exactly balanced transaction is accepted with the same exact amounts and costs; the two-posting elision is sound when both postings must balance; per-unit and total costs re-read to the same total; printing twice is stable; equity reproduces per-account per-commodity sums) + differential correspondence against ledger + implementation-only round-trip oracle',
+    technique='Coq proof about a model of print_xact\'s per-posting decisions, of the reader on such lines and of posts_as_equity (print shows what was written; re-read of an exactly balanced transaction is accepted with the same exact amounts and costs; the two-posting elision happens only when both postings must balance and is then sound; print never fails; posting marks bring the state back; per-unit and total costs re-read to the same total; printing twice is stable; equity reproduces per-account per-commodity sums) + differential correspondence against ledger + implementation-only round-trip oracle',
     level_text='Theorems in coq/Properties/Properties_C06.v are stated for Model/Print.v: `decide` (post_has_simple_amount, the count == 2 && index == 2 elision, POST_CALCULATED / ITEM_GENERATED suppression, the @ / @@ choice with the printed per-unit cost |given_cost / amount|, state marks, bare 0 for a display-zero amount, read_back = amount_t::print then amount_t::parse at display precision with zero trimming), `reread` (what parse_post makes of such a line) followed by Model/Xact.v `finalize`, and `equity_account`. The model is tied to the code by tokenizing ledger\'s print output into the same decision records and by comparing finalize of the original and of the re-read printed text (exact rationals via the verif_rational hook).',
-    level_note='Trusted: Coq kernel; the MPFR display rounding model Base/Round.v (validated by C04); extraction/driver/harness for the correspondence. Layout (column widths, note placement, blank lines) is not modelled; it is covered by the byte-identity oracle print(print J) == print J only. Amount text <-> amount value is C04\'s subject (AmountText.v); here an amount is printed as the value the reader gets back (read_back). Not modelled: amount expressions `(expr)`, --generated, automated/periodic transactions in print, metadata set programmatically (print.cc:172-183), value-expression annotations, commodity styles beyond prefix/suffix, the iteration order of accounts in equity. Known findings F7 (virtual pair elision), F8 (zero amount printed as bare 0), F27 (posting state lost under a cleared/pending transaction), F28 (print fails with Divide by zero on `0 X @ price`).',
+    level_note='Trusted: Coq kernel; the MPFR display rounding model Base/Round.v (validated by C04); extraction/driver/harness for the correspondence. Layout (column widths, note placement, blank lines) is not modelled; it is covered by the byte-identity oracle print(print J) == print J only. Amount text <-> amount value is C04\'s subject (AmountText.v); here an amount is printed as the value the reader gets back (read_back). Not modelled: amount expressions `(expr)`, --generated, automated/periodic transactions in print, metadata set programmatically (print.cc:172-183), value-expression annotations, commodity styles beyond prefix/suffix, the iteration order of accounts in equity. Known findings still listed: F8 (zero amount printed as bare 0), F29 (re-read rejected after the commodity precision grew), F30 (equity rounds an inferred amount to display precision), F31 (all-zero transaction not printed). Repaired in /repo and now enforced as violations by the oracle: virtual-pair elision (bcb53b0, old F7), posting mark under a marked transaction (294def6, old F27), zero amount with a per-unit cost (c386080, old F28).',
     design_ref='DESIGN.md section 7 C06',
     assumptions=['journals accepted by ledger (a journal with any error is outside the quantifier; erroneous transactions are dropped by the generator)',
                  'commodities $ EUR AAA BBB CCC without thousands marks or decimal comma (C04 covers styles)',
@@ -143,14 +143,14 @@ def two_post(rng, st):
     dec = X.COMMS[s][1]
     a = X.Amt.rand(rng, s, dec)
     k = rng.randrange(12)
-    if k in (2, 9, 10) and rng.random() < 0.8:
+    if k == 10 and rng.random() < 0.8:      # zero amounts are finding F8: keep them rare
         k = rng.choice([0, 1, 3, 4])
     A, B = rng.sample(X.ACCTS + UNUSUAL_ACCTS, 2)
     if k == 0:      # plain pair: elided
         ps = [XPost(A, 'R', a), XPost(B, 'R', a.neg())]
     elif k == 1:    # balanced-virtual pair: elided, sound
         ps = [XPost('BV:' + A, 'B', a), XPost('BV:' + B, 'B', a.neg())]
-    elif k == 2:    # virtual pair (finding F7): elided although nothing forces the second amount
+    elif k == 2:    # virtual pair: must NOT be elided, nothing forces the second amount (repaired defect, old F7)
         b = a.neg() if rng.random() < 0.5 else X.Amt.rand(rng, s, dec)
         ps = [XPost('V:' + A, 'V', a), XPost('V:' + B, 'V', b)]
     elif k == 3:    # different written precision, same commodity
@@ -209,7 +209,7 @@ def gen_assign(rng, st):
 
 
 def gen_zero_cost(rng, st):
-    """`0 AAA @ $2.00`: print divides the given cost by the amount (finding F28)"""
+    """`0 AAA @ $2.00`: print must write the total cost `@@ $0.00`, not divide (repaired defect, old F28)"""
     return XXact([XPost('Assets:Broker:X', 'R', X.Amt(0, 0, 'AAA'), ('u', X.Amt(F(200, 100), 2, '$'))),
                   XPost('Assets:Bank', 'R', X.Amt(F(5), 2, '$')), XPost('Assets:Cash', 'R', None)])
 
@@ -234,8 +234,8 @@ def decorate(rng, x, plain=False):
         r = rng.random()
         if x.state == '':
             p.mark = '*' if r < 0.15 else '!' if r < 0.25 else ''
-        elif r < 0.01:
-            p.mark = '!' if x.state == '*' else '*'          # finding F27
+        elif r < 0.08:
+            p.mark = '!' if x.state == '*' else '*'          # own mark under a marked transaction (repaired defect, old F27)
         elif r < 0.1:
             p.mark = x.state                                   # redundant mark
         p.note = rng.choice(PNOTES)
@@ -265,7 +265,7 @@ def gen_xact(rng, st):
         x = upgrade(X.gen_lot(rng))
     elif r < 0.93:
         x = gen_assign(rng, st)
-    elif r < 0.935:
+    elif r < 0.94:
         x = gen_zero_cost(rng, st)
     else:
         x = upgrade(X.gen_balanced(rng, ncomm=3))
@@ -715,7 +715,19 @@ def run_equity(ctx, res, j, xs, text, path, rows, eq_cases):
     s2, b2, e2 = lib.run_ledger(['-f', qpath, 'bal', '--flat', '--empty', '--format', BAL_FMT] + NOW)
     res.count('equity-checked')
     if s2 != 0 or e2.strip():
-        res.violations.append(dict(key='equity-reread-fails', desc='the equity transaction is not accepted: %s' % e2.decode('utf-8', 'replace')[-200:],
+        # finding F30 can also show as an unbalanced opening transaction: every balance is rounded to the display
+        # precision separately, so the rounded postings need not sum to zero
+        cp0 = {}
+        for x in xs:
+            for p in x.posts:
+                for a in (p.amt, p.assigned):
+                    if a is not None and a.sym:
+                        cp0[a.sym] = max(cp0.get(a.sym, 0), a.dec)
+        finer = any(r['amt'] and r['amt'][2] > cp0.get((r['amt'][0] or '').split('~')[0], 0) for i in rows for r in rows[i])
+        key = 'equity-reread-fails'
+        if finer and b'does not balance' in e2:
+            key = 'equity-balance-differs:inferred-amount-rounded-to-display-precision'
+        res.violations.append(dict(key=key, desc='the equity transaction is not accepted: %s' % e2.decode('utf-8', 'replace')[-200:],
                                    case=dict(journal=text, printed=Q.decode('utf-8', 'replace')), observed='error', required='accepted'))
         return
     t1 = {k: v for k, v in parse_bal(b1).items() if k[0] != 'Equity:Opening Balances'}
@@ -774,7 +786,7 @@ def run(ctx, n_override=None):
                 'different written precision, equal lots, first/second elided in the source, costs, implied rate, zero amounts), exactly '
                 'balanced multi-commodity transactions with @/@@/(@) costs and virtual postings, one elided amount, excess-precision per-unit '
                 'costs at the half-unit boundary, lot sales with {price} [date] (tag), balance assignments/assertions, `0 X @ price`; '
-                'decorated with states on transactions and postings, codes, auxiliary dates, notes, tags, key: value metadata and unusual '
+                'decorated with states on transactions and postings (also a posting mark that differs from the mark of its transaction), codes, auxiliary dates, notes, tags, key: value metadata and unusual '
                 'payee/account text; non-trivial = a transaction with at least one such feature in a journal whose printed text re-reads; '
                 'distinct by rendered transaction text')
     n = n_override or ctx.scale(130, 600)
